@@ -46,6 +46,9 @@ def regex_token_classes(pattern: str) -> tuple[set[str], set[str], bool]:
             raise AnalysisError(f"regex item {op} not supported")
         return out
 
+    # a group around the whole token (capturing for re.split, or non-capturing) does not change what a token is
+    while len(items) == 1 and items[0][0] is sc.SUBPATTERN:
+        items = list(items[0][1][-1])
     if len(items) == 1 and items[0][0] is sc.MAX_REPEAT:
         lo, hi, sub = items[0][1]
         sub = list(sub)
